@@ -17,6 +17,10 @@
 #include <type_traits>
 #include <typeinfo>
 #include <vector>
+#include <limits>
+inline double qInf() { return std::numeric_limits<double>::infinity(); }
+inline double qQNaN() { return std::numeric_limits<double>::quiet_NaN(); }
+inline double qSNaN() { return std::numeric_limits<double>::signaling_NaN(); }
 
 typedef unsigned int uint;
 typedef uint32_t quint32;
@@ -74,6 +78,9 @@ public:
     QString arg(int a) const { return arg(number((long long)a)); }
     QString arg(uint a) const { return arg(number((long long)a)); }
     QString arg(long long a) const { return arg(number(a)); }
+    QString arg(long a) const { return arg(number((long long)a)); }
+    QString arg(unsigned long a) const { return arg(number((long long)a)); }
+    QString arg(unsigned long long a) const { return arg(number((long long)a)); }
     QString arg(double a) const { return arg(number(a)); }
     QString arg(bool a) const { return arg(number((long long)a)); }
     friend QString operator+(const QString &a, const QString &b) { QString r; r.d = a.d + b.d; return r; }
